@@ -8,8 +8,8 @@ Definition SP : byte := x20.
 
 Fixpoint split_on (sep : byte) (l : bytes) (cur : bytes) : list bytes :=
   match l with
-  | [] => [rev cur]
-  | c :: l' => if byte_eqb c sep then rev cur :: split_on sep l' [] else split_on sep l' (c :: cur)
+  | [] => [rev_append cur []]
+  | c :: l' => if byte_eqb c sep then rev_append cur [] :: split_on sep l' [] else split_on sep l' (c :: cur)
   end.
 
 Definition tokens (l : bytes) : list bytes := split_on SP l [].
